@@ -1,7 +1,171 @@
 import CCV.Drv.Util
 import CCV.Model.Bytes
+import CCV.Model.TypedValue
 namespace CCV.Drv.C13
-open CCV CCV.Drv CCV.Bytes
+open CCV CCV.Drv CCV.Bytes CCV.TV
+
+/-! token encodings (prefix notation, one token per node):
+  type : `s:<st>` | `a:<st>:<dims>` | `v:<n>` T | `t:<k>` T… | `n:<k>` (`N<name>` T)…
+  value: `b:<bytes>` | `l:<k>` V…
+  json : `#<int>` | `"<string, ' ' as '~'>` | `T` | `F` | `Z` | `[<k>` J… | `{<k>` (`"<key>` J)…  -/
+
+def tail1 (s : String) : String := String.ofList (s.toList.drop 1)
+
+def parseTy : Nat → List String → Option (Ty × List String)
+  | 0, _ => none
+  | fuel + 1, tok :: rest =>
+    match tok.splitOn ":" with
+    | ["s", st] => (ST.parse st).map (fun st => (.scalar st, rest))
+    | ["a", st, dims] =>
+      match ST.parse st, parseNatList? dims with
+      | some st, some d => some (.array d st, rest)
+      | _, _ => none
+    | ["v", n] =>
+      match parseNat? n, parseTy fuel rest with
+      | some n, some (t, rest) => some (.vector n t, rest)
+      | _, _ => none
+    | ["t", k] => (parseNat? k).bind (fun k => (many fuel k rest).map (fun (ts, r) => (.tuple ts, r)))
+    | ["n", k] => (parseNat? k).bind (fun k => (manyN fuel k rest).map (fun (fs, r) => (.named fs, r)))
+    | _ => none
+  | _, [] => none
+where
+  many (fuel : Nat) : Nat → List String → Option (List Ty × List String)
+    | 0, rest => some ([], rest)
+    | k + 1, rest =>
+      match parseTy fuel rest with
+      | some (t, rest) => (many fuel k rest).map (fun (ts, r) => (t :: ts, r))
+      | none => none
+  manyN (fuel : Nat) : Nat → List String → Option (List (String × Ty) × List String)
+    | 0, rest => some ([], rest)
+    | k + 1, name :: rest =>
+      match parseTy fuel rest with
+      | some (t, rest) => (manyN fuel k rest).map (fun (fs, r) => ((tail1 name, t) :: fs, r))
+      | none => none
+    | _, [] => none
+
+def parseVal : Nat → List String → Option (Val × List String)
+  | 0, _ => none
+  | fuel + 1, tok :: rest =>
+    match tok.splitOn ":" with
+    | ["b", bs] => (parseNatList? bs).map (fun bs => (.bytes bs, rest))
+    | ["l", k] => (parseNat? k).bind (fun k => (many fuel k rest).map (fun (vs, r) => (.vec vs, r)))
+    | _ => none
+  | _, [] => none
+where
+  many (fuel : Nat) : Nat → List String → Option (List Val × List String)
+    | 0, rest => some ([], rest)
+    | k + 1, rest =>
+      match parseVal fuel rest with
+      | some (v, rest) => (many fuel k rest).map (fun (vs, r) => (v :: vs, r))
+      | none => none
+
+def unStr (tok : String) : String := (tail1 tok).replace "~" " "
+
+def parseJ : Nat → List String → Option (J × List String)
+  | 0, _ => none
+  | fuel + 1, tok :: rest =>
+    match tok.toList.head? with
+    | some '#' => (parseInt? (tail1 tok)).map (fun n => (.num n, rest))
+    | some '"' => some (.str (unStr tok), rest)
+    | some 'T' => some (.bool true, rest)
+    | some 'F' => some (.bool false, rest)
+    | some 'Z' => some (.null, rest)
+    | some '[' => (parseNat? (tail1 tok)).bind (fun k => (many fuel k rest).map (fun (xs, r) => (.arr xs, r)))
+    | some '{' => (parseNat? (tail1 tok)).bind (fun k => (manyF fuel k rest).map (fun (xs, r) => (.obj xs, r)))
+    | _ => none
+  | _, [] => none
+where
+  many (fuel : Nat) : Nat → List String → Option (List J × List String)
+    | 0, rest => some ([], rest)
+    | k + 1, rest =>
+      match parseJ fuel rest with
+      | some (v, rest) => (many fuel k rest).map (fun (vs, r) => (v :: vs, r))
+      | none => none
+  manyF (fuel : Nat) : Nat → List String → Option (List (String × J) × List String)
+    | 0, rest => some ([], rest)
+    | k + 1, key :: rest =>
+      match parseJ fuel rest with
+      | some (v, rest) => (manyF fuel k rest).map (fun (vs, r) => ((unStr key, v) :: vs, r))
+      | none => none
+    | _, [] => none
+
+partial def showTy : Ty → String
+  | .scalar st => s!"s:{st.name}"
+  | .array sh st => s!"a:{st.name}:{showList sh}"
+  | .vector n t => s!"v:{n} {showTy t}"
+  | .tuple ts => " ".intercalate (s!"t:{ts.length}" :: ts.map showTy)
+  | .named fs => " ".intercalate (s!"n:{fs.length}" :: fs.map (fun (n, t) => s!"N{n} {showTy t}"))
+
+partial def showVal : Val → String
+  | .bytes bs => s!"b:{showList bs}"
+  | .vec vs => " ".intercalate (s!"l:{vs.length}" :: vs.map showVal)
+
+/-- compact JSON text exactly as `serde_json::to_string` prints it (strings are never escaped:
+    the harness only uses names without special characters) -/
+partial def render : J → String
+  | .num n => toString n
+  | .str s => "\"" ++ s ++ "\""
+  | .bool b => if b then "true" else "false"
+  | .null => "null"
+  | .arr xs => "[" ++ ",".intercalate (xs.map render) ++ "]"
+  | .obj kvs => "{" ++ ",".intercalate (kvs.map (fun (k, v) => "\"" ++ k ++ "\":" ++ render v)) ++ "}"
+
+def parseTyVal (toks : List String) : Option (Ty × Val × List String) :=
+  match parseTy toks.length toks with
+  | some (t, rest) =>
+    match parseVal (rest.length + 1) rest with
+    | some (v, rest) => some (t, v, rest)
+    | none => none
+  | none => none
+
+/-- container requests:
+  `checktv <type> <value>`        → `Value::check_type`  (1 / 0 / ERR)
+  `zero <type>`                   → `Value::zero_of_type`
+  `tojson <type> <value>`         → `serde_json::to_string(&TypedValue)` (text) / ERR
+  `ofjson <json tokens>`          → `serde_json::from_str::<TypedValue>`: `<type> <value>` / ERR
+  `iseq <type> <value> <value>`   → `TypedValue::is_equal`
+  `scalar <st> <nb> <ns> <bytes>` → `Value::to_<native>(st)` -/
+def handleTV : List String → Option String
+  | "checktv" :: toks =>
+    match parseTyVal toks with
+    | some (t, v, []) =>
+      match checkType v t with
+      | .ok b => some (showBool b)
+      | .error _ => some "ERR"
+    | _ => none
+  | "zero" :: toks =>
+    match parseTy toks.length toks with
+    | some (t, []) => some (showVal (zeroOf t))
+    | _ => none
+  | "tojson" :: toks =>
+    match parseTyVal toks with
+    | some (t, v, []) =>
+      match toJ t v with
+      | some j => some (render j)
+      | none => some "ERR"
+    | _ => none
+  | "ofjson" :: toks =>
+    match parseJ toks.length toks with
+    | some (j, []) =>
+      match ofJTop j with
+      | some (t, v) => some (showTy t ++ " " ++ showVal v)
+      | none => some "ERR"
+    | _ => none
+  | "iseq" :: toks =>
+    match parseTyVal toks with
+    | some (t, v, rest) =>
+      match parseVal (rest.length + 1) rest with
+      | some (w, []) => some (showBool (isEqual t v w))
+      | _ => none
+    | _ => none
+  | ["scalar", st, nb, ns, bs] =>
+    match ST.parse st, parseNat? nb, parseNat? ns, parseNatList? bs with
+    | some st, some nb, some ns, some bs =>
+      match toU128 (.bytes bs) st with
+      | .ok r => some (toString (castNative nb (ns == 1) r))
+      | .error _ => some "ERR"
+    | _, _, _, _ => none
+  | _ => none
 
 /-- requests:
   `tobytes <st> <ints>`            → bytes of `Value::from_flattened_array`
@@ -40,6 +204,6 @@ def handle : List String → String
     match ST.parse st, parseNatList? sh, parseNat? len with
     | some st, some sh, some len => showBool (checkArrayType len sh st)
     | _, _, _ => "BAD-OP"
-  | _ => "BAD-OP"
+  | req => (handleTV req).getD "BAD-OP"
 
 end CCV.Drv.C13
